@@ -57,6 +57,50 @@ macro_rules! off {
     };
 }
 
+/// the named exception fields sit at 16 x their architectural vector number (also the C19 clause "exception-vector numbers")
+pub fn named_field_placement(r: &mut Rep, tag: &str) {
+    let idt = InterruptDescriptorTable::new();
+    let base = &idt as *const InterruptDescriptorTable as usize;
+    let named: [(&str, usize, u8); 23] = [
+        ("divide_error", off!(idt, divide_error), 0), ("debug", off!(idt, debug), 1), ("non_maskable_interrupt", off!(idt, non_maskable_interrupt), 2),
+        ("breakpoint", off!(idt, breakpoint), 3), ("overflow", off!(idt, overflow), 4), ("bound_range_exceeded", off!(idt, bound_range_exceeded), 5),
+        ("invalid_opcode", off!(idt, invalid_opcode), 6), ("device_not_available", off!(idt, device_not_available), 7), ("double_fault", off!(idt, double_fault), 8),
+        ("invalid_tss", off!(idt, invalid_tss), 10), ("segment_not_present", off!(idt, segment_not_present), 11), ("stack_segment_fault", off!(idt, stack_segment_fault), 12),
+        ("general_protection_fault", off!(idt, general_protection_fault), 13), ("page_fault", off!(idt, page_fault), 14), ("x87_floating_point", off!(idt, x87_floating_point), 16),
+        ("alignment_check", off!(idt, alignment_check), 17), ("machine_check", off!(idt, machine_check), 18), ("simd_floating_point", off!(idt, simd_floating_point), 19),
+        ("virtualization", off!(idt, virtualization), 20), ("cp_protection_exception", off!(idt, cp_protection_exception), 21),
+        ("hv_injection_exception", off!(idt, hv_injection_exception), 28), ("vmm_communication_exception", off!(idt, vmm_communication_exception), 29),
+        ("security_exception", off!(idt, security_exception), 30),
+    ];
+    let _ = base;
+    for (n, o, v) in named.iter() {
+        r.ev(true);
+        if *o != 16 * *v as usize {
+            r.viol(&format!("{}|named-field|{}|not-at-its-vector", tag, n), &format!("field {}", n), &format!("offset {} expected {}", o, 16 * *v as usize));
+        }
+    }
+}
+
+fn gh_place(_f: InterruptStackFrame, _i: u8, _e: Option<u64>) {}
+/// reached through set_general_handler! for exactly one vector: the gate that changes is the one at 16v
+pub fn general_handler_placement(r: &mut Rep) {
+    for v in 0..=255u8 {
+        r.ev(true);
+        let mut t = InterruptDescriptorTable::new();
+        let before = table_bytes(&t);
+        if catch(|| { x86_64::set_general_handler!(&mut t, gh_place, v..=v); }).is_err() {
+            r.viol("C12|set_general_handler|panics-for-a-single-vector", &format!("ghplace {}", v), "");
+            continue;
+        }
+        let after = table_bytes(&t);
+        let changed: Vec<usize> = (0..256).filter(|&k| after[16 * k..16 * k + 16] != before[16 * k..16 * k + 16]).collect();
+        let want: Vec<usize> = if RESERVED_VECTORS.contains(&v) { vec![] } else { vec![v as usize] };
+        if changed != want {
+            r.viol("C12|set_general_handler|vector-v-is-not-installed-in-the-descriptor-at-16v", &format!("ghplace {}", v), &format!("descriptors changed: {:?}", changed));
+        }
+    }
+}
+
 fn placement(r: &mut Rep) {
     let idt = InterruptDescriptorTable::new();
     let base = &idt as *const InterruptDescriptorTable as usize;
@@ -75,12 +119,9 @@ fn placement(r: &mut Rep) {
         ("hv_injection_exception", off!(idt, hv_injection_exception), 28), ("vmm_communication_exception", off!(idt, vmm_communication_exception), 29),
         ("security_exception", off!(idt, security_exception), 30), ("(end)", 4096, 0),
     ];
-    for (n, o, v) in named.iter().take(23) {
-        r.ev(true);
-        if *o != 16 * *v as usize {
-            r.viol(&format!("C12|named-field|{}|not-at-its-vector", n), &format!("field {}", n), &format!("offset {} expected {}", o, 16 * *v as usize));
-        }
-    }
+    let _ = named;
+    named_field_placement(r, "C12");
+    general_handler_placement(r);
     // Index<u8>
     let refuse: Vec<u8> = ERR_VECTORS.iter().chain(RESERVED_VECTORS.iter()).copied().chain([18u8]).collect();
     let mut idtm = InterruptDescriptorTable::new();
